@@ -171,6 +171,7 @@ func C02Scenario() *Scenario {
 			return ops
 		}
 		pol := &Policy{Name: "adversarial", Shuffle: true, HoldWatch: 150 * t.Pick(5, "hold"), EnvProb: 120, AdvanceProb: 20}
+		pol.ForceFault = s.ReplaceUnderWrite(40)
 		w.Cfg["policy"] = fmt.Sprintf("adversarial hold=%d", pol.HoldWatch)
 		checked := 0
 		check := func(w *World) *Violation {
